@@ -14,7 +14,8 @@ pub(crate) trait LWEDecryptDefault<BE: Backend>: Sized + VecZnxNormalize<BE> + V
     where
         A: LWEInfos,
     {
-        let lvl_0: usize = LWEPlaintext::bytes_of(infos.size());
+        // The temporary holds one coefficient per limb: the take re-aligns the scratch to `DEFAULTALIGN`.
+        let lvl_0: usize = LWEPlaintext::bytes_of(infos.size()).next_multiple_of(poulpy_hal::DEFAULTALIGN);
         let lvl_1: usize = self.vec_znx_normalize_tmp_bytes();
 
         lvl_0 + lvl_1
